@@ -22,6 +22,7 @@ func init() {
 			{ID: "C13.2", Doc: "what CheckIncoming=nil means: seq and CAS operands", Floor: 4, Run: c13r2},
 			{ID: "C13.3", Doc: "compound store operations are atomic", Floor: 3, Run: c13r3},
 			{ID: "C13.4", Doc: "expiry and conditional get", Floor: 5, Run: c13r4},
+			{ID: "C13.5", Doc: "an inbound put hands seq and cas of the request to the store unchanged", Floor: 2, Run: c13r5},
 		},
 	})
 }
@@ -254,4 +255,18 @@ func c13r4(w *World, rr *RuleRun) {
 			})
 		}
 	}
+}
+
+// c13r5: the Item built by the put handler takes Seq from *args.seq and Cas from args.cas (without
+// them CheckIncoming compares against zero values and the CAS / ordering protection is void).
+func c13r5(w *World, rr *RuleRun) {
+	h := w.handler()
+	itemT := w.P.NamedType("bep44", "Item")
+	lit := w.literalStores(h.fn, itemT)
+	argsSeq := w.P.Field("krpc", "MsgArgs", "Seq")
+	argsCas := w.P.Field("krpc", "MsgArgs", "Cas")
+	seq := w.TS.Of(lit["Seq"])
+	rr.Oblige(shortFuncName(h.fn), "the stored item's seq is the request's seq", w.P.Pos(h.fn.Pos()), lit["Seq"] != nil && seq.Op == OpDeref && isFieldTerm(seq.Args[0], argsSeq), "Seq ← "+trunc(seq.String(), 100))
+	cas := w.TS.Of(lit["Cas"])
+	rr.Oblige(shortFuncName(h.fn), "the stored item's cas is the request's cas", w.P.Pos(h.fn.Pos()), lit["Cas"] != nil && isFieldTerm(cas, argsCas), "Cas ← "+trunc(cas.String(), 100))
 }
